@@ -290,6 +290,9 @@ pub fn run_once(s: &Scenario, scratch: &Path) -> Result<RunResult, String> {
     }
     std::fs::write(fixture.join("app.txt"), "fixture app\n").map_err(io)?;
     std::fs::write(fixture.join("sub dir/ünï.bin"), [0u8, 159, 146, 150]).map_err(io)?;
+    if s.fixture_uncopyable {
+        std::os::unix::fs::symlink("does/not/exist", fixture.join("broken-link")).map_err(io)?;
+    }
     std::fs::write(krate.join("Cargo.toml"), "[package]\nname = \"fixture-crate\"\nversion = \"0.0.0\"\n").map_err(io)?;
     for name in ["docker", "pack"] {
         std::os::unix::fs::symlink(bin_dir().join("stubcli"), path_dir.join(name)).map_err(io)?;
@@ -298,6 +301,9 @@ pub fn run_once(s: &Scenario, scratch: &Path) -> Result<RunResult, String> {
         let p = stub.join("state").join(kind);
         std::fs::create_dir_all(&p).map_err(io)?;
         std::fs::write(p.join(name), b"").map_err(io)?;
+    }
+    if s.rmi_mode != 0 {
+        std::fs::write(stub.join("rmi_mode"), s.rmi_mode.to_string()).map_err(io)?;
     }
     if let Fault::CommandFailsAt(k) = s.fault {
         std::fs::write(stub.join("fail_noncleanup_at"), k.to_string()).map_err(io)?;
@@ -374,7 +380,7 @@ fn mentions(e: &LogEntry, name: &str) -> bool {
     e.argv.iter().any(|a| a == name || a.ends_with(&format!("name={name}")))
 }
 
-pub fn judge_c16(r: &RunResult) -> Vec<String> {
+pub fn judge_c16(s: &Scenario, r: &RunResult) -> Vec<String> {
     let mut v = Vec::new();
     match r.exit {
         Some(0 | 101) => {}
@@ -382,9 +388,13 @@ pub fn judge_c16(r: &RunResult) -> Vec<String> {
     }
     // nothing leaked, nothing foreign removed
     let foreign: BTreeSet<String> = FOREIGN.iter().map(|(k, n)| format!("{k}/{n}")).collect();
-    for s in &r.state {
-        if !foreign.contains(s) {
-            v.push(format!("resource left behind after the test ended: {s}"));
+    for left in &r.state {
+        // an image the daemon refused to delete stays (its one removal is still checked below)
+        if s.rmi_mode == 2 && left.starts_with("images/") {
+            continue;
+        }
+        if !foreign.contains(left) {
+            v.push(format!("resource left behind after the test ended: {left}"));
         }
     }
     for f in &foreign {
@@ -721,6 +731,9 @@ fn signature(property: &str, detail: &[String]) -> String {
             l.split("libcnbtest_")
                 .next()
                 .unwrap_or(l)
+                .split("[\".tmp")
+                .next()
+                .unwrap_or(l)
                 .chars()
                 .filter(|c| !c.is_ascii_digit())
                 .take(70)
@@ -732,7 +745,7 @@ fn signature(property: &str, detail: &[String]) -> String {
 
 fn judge(property: &str, s: &Scenario, r: &RunResult) -> Vec<String> {
     if property == "C16" {
-        judge_c16(r)
+        judge_c16(s, r)
     } else {
         judge_c17(s, r)
     }
@@ -870,7 +883,11 @@ pub fn worker(args: &[String]) -> i32 {
             break;
         }
         let seed = run_seed(crate::global_seed(), "e4", i);
-        let base = scenario::generate(seed);
+        let mut base = scenario::generate(seed);
+        if property != "C16" {
+            // a fixture that cannot be copied ends the build before any command is issued
+            base.fixture_uncopyable = false;
+        }
         sum.scenarios += 1;
         let r0 = match run_once(&base, &scratch.join("w")) {
             Ok(r) => r,
